@@ -227,6 +227,25 @@ pub fn to_rats(ks: &[i64], scale: Rat) -> Vec<Rat> {
 pub fn stream(cfg: StreamCfg) -> BoxedStrategy<Vec<Rat>> {
     raw_segs(cfg).prop_map(move |segs| to_rats(&render(&segs, &cfg), cfg.scale)).boxed()
 }
+/// `stream`, with negative zeros: for the clauses that opt in (their checks never take a Rat apart)
+pub fn stream_nz(cfg: StreamCfg) -> BoxedStrategy<Vec<Rat>> {
+    // one case in eight writes some of its zeros as the floating-point negative zero (Rat(0, -d): the number 0 in exact
+    // arithmetic, -0.0 in f64 / f32); 7 = on, so that shrinking switches it off when it does not matter
+    (raw_segs(cfg), 0u8..8, any::<u64>())
+        .prop_map(move |(segs, nz, salt)| {
+            let mut v = to_rats(&render(&segs, &cfg), cfg.scale);
+            if nz == 7 && !cfg.positive {
+                let mut st = salt | 1;
+                for r in v.iter_mut() {
+                    if r.0 == 0 && splitmix(&mut st) % 2 == 0 {
+                        *r = Rat(0, -r.1.abs().max(1));
+                    }
+                }
+            }
+            v
+        })
+        .boxed()
+}
 /// Same, in grid integers.
 pub fn stream_k(cfg: StreamCfg) -> BoxedStrategy<Vec<i64>> {
     raw_segs(cfg).prop_map(move |segs| render(&segs, &cfg)).boxed()
@@ -355,6 +374,9 @@ pub fn shape_labels(xs: &[Rat], n: usize) -> Vec<String> {
     }
     if has_tie(xs) {
         l.push("tie".into());
+    }
+    if xs.iter().any(|r| r.0 == 0 && r.1 < 0) {
+        l.push("negative_zero".into());
     }
     if has_zero(xs) {
         l.push("zero".into());
